@@ -48,7 +48,7 @@ def programs(tier: str):
     kmax = BOUNDS[tier]["max_disposables"]
     bodies = [("return", 0), ("raise", 0), ("return", 1)]
     for k in range(0, kmax + 1):
-        if k <= 2:
+        if k <= 2 or (tier == "thorough" and k == 3):
             beh = _behaviours(True)
         else:
             beh = [b for b in _behaviours(False) if b["yields"] == "none" or (b["enter"] == "ok" and b["exit"] == "ok")]
